@@ -31,6 +31,7 @@ META = {
     "not_decided": "that every stale reservoir is gone after every update, that the newest point's leaf equals the leaf it is "
                    "routed to after learn_one, class sets of categorical predictions (run-time behaviour of river)",
 }
+META["explanation"] += ' Also COPY for TreeStorage / GeometricReservoirStorage, the class value drawn by a standard-library draw over the keys of predict_proba_one, the rebuild-in-place sweep.'
 MIN_INSTANCES = {"LEN": 2, "RESERVOIR": 4, "SWEEP": 2, "AGREE": 3, "IMPUTE": 3}
 TS = "TreeStorage"
 WRITER = "get_path_through_tree"
